@@ -300,6 +300,5 @@ example : Base58.decode (Base58.encode [0, 0, 1, 255]) = some [0, 0, 1, 255] ∧
 example : Address.toScript (fun _ => []) Generated.addrNetworks "BC1QW508D6QEJXTDG4Y5R3ZARVARY0C5XW7KV8F3T4".toList = none
     ∧ (Bech32.decode "bc".toList "BC1QW508D6QEJXTDG4Y5R3ZARVARY0C5XW7KV8F3T4".toList).isSome = true := by decide +kernel
 
--- GOAL (not proved): completeness of `address_to_scriptpubkey` on non-canonical spellings — `to_script_sound` shows that only valid addresses yield a script and `addr_script_addr` that every canonical (lower-case) address of the five types does; the all-upper-case spelling of a segwit address is rejected by embit (see the example above) and valid v2–v16 addresses raise
 
 end Embit.Props.C11
